@@ -19,6 +19,19 @@ fn enum_pairs(bits: usize, f: &mut dyn FnMut(&Case) -> R) -> R {
     Ok(())
 }
 
+/// all pairs of values whose limbs come from a small alphabet (complete enumeration)
+fn enum_alphabet_pairs(bits: usize, f: &mut dyn FnMut(&Case) -> R) -> R {
+    let alpha: &[u64] = if nlimbs(bits) <= 3 { &LIMB_ALPHABET8 } else { &LIMB_ALPHABET5 };
+    let vals = alphabet_values(bits, alpha);
+    for la in &vals {
+        for lb in &vals {
+            let (la, lb) = (la.clone(), lb.clone());
+            f(&Case::new().l(la.clone()).l(lb.clone()).l(la).l(lb).n(9))?;
+        }
+    }
+    Ok(())
+}
+
 fn strat(bits: usize) -> BoxedStrategy<Case> {
     let n = nlimbs(bits);
     let list = vec(uint(bits), 0..6);
@@ -165,7 +178,7 @@ fn body<const B: usize, const L: usize>(c: &Case, rec: &mut Rec) -> R {
 fn main() {
     let spec = PropSpec {
         id: "C01",
-        rule_text: "operand pairs (a,b) per width from 3 generator classes (independent boundary-alphabet values; b = 2^BITS - a + {-2..2}; b = a + {-2..2}) plus 0..5 extra alphabet values for iterator sums (slice, copied, filter, from_fn, chain, into_iter, rev iterators); + and - through all six operator shapes; exhaustive enumeration of all pairs for BITS <= 8. Oracle: num-bigint a+b, a-b, -a reduced mod 2^BITS and the exact overflow predicates. Non-trivial: a carry or borrow crosses a limb boundary, or the unreduced result lies outside [0,2^BITS), or (non-aligned width) the pre-mask top limb exceeds MASK; distinct by (rule,width,a,b).",
+        rule_text: "operand pairs (a,b) per width from 3 generator classes (independent boundary-alphabet values; b = 2^BITS - a + {-2..2}; b = a + {-2..2}) plus 0..5 extra alphabet values for iterator sums (slice, copied, filter, from_fn, chain, into_iter, rev iterators); + and - through all six operator shapes; exhaustive enumeration of all pairs for BITS <= 8 and of all pairs of values whose limbs come from {0,1,2,2^63-1,2^63,2^63+1,MAX-1,MAX} (2-3 limbs) or {0,1,2^63,MAX-1,MAX} (4 limbs) at 8 widths. Oracle: num-bigint a+b, a-b, -a reduced mod 2^BITS and the exact overflow predicates. Non-trivial: a carry or borrow crosses a limb boundary, or the unreduced result lies outside [0,2^BITS), or (non-aligned width) the pre-mask top limb exceeds MASK; distinct by (rule,width,a,b).",
         assumptions: vec![
             "num-bigint arithmetic is correct (oracle)",
             "x86-64 little-endian target; fixed width grid",
@@ -176,6 +189,7 @@ fn main() {
         spec,
         |jobs, _| {
             reg_enum!(jobs, "addsub_all_pairs", enum_pairs, body; [0, 1, 2, 3, 4, 5, 6, 7, 8]);
+            reg_enum!(jobs, "addsub_limb_alphabet", enum_alphabet_pairs, body; [65, 127, 128, 129, 190, 192, 250, 256]);
             w_all_wide!(reg_gen!(jobs, "addsub", 20000, strat, body;));
         },
         |_| Map::new(),
